@@ -633,6 +633,8 @@ class ImportanceNestedSampler(BaseNestedSampler):
 
     @property
     def final_samples(self) -> np.ndarray:
+        if self.final_samples_unit is None:
+            return None
         return self.model.from_unit_hypercube(self.final_samples_unit)
 
     @property
